@@ -70,7 +70,7 @@ func (w *World) craft(n *Node, s *Step, sealer *wallet.Wallet) (*accountant.Vert
 		return nil, err
 	}
 	if s.Kind == "empty" {
-		trx, err = transaction.New("crafted", spice.Melange{}, nil, rcv.Address(), iss)
+		trx, err = transaction.New("crafted", spice.Melange{}, []byte{}, rcv.Address(), iss)
 		if err != nil {
 			return nil, err
 		}
@@ -78,6 +78,32 @@ func (w *World) craft(n *Node, s *Step, sealer *wallet.Wallet) (*accountant.Vert
 	l, r, wt, ok := w.tipsOf(n)
 	if !ok {
 		return nil, fmt.Errorf("no tips")
+	}
+	if s.Via == "old-left" || s.Via == "old-right" {
+		// one parent is a vertex that already has children, the other a tip
+		if sn := w.snapshot(n); sn != nil {
+			var olds []Hash
+			for h, sv := range sn.Live {
+				if len(sv.GChild) > 0 {
+					olds = append(olds, h)
+				}
+			}
+			sortHashes(olds)
+			if len(olds) > 0 {
+				o := olds[w.rng.Intn(len(olds))]
+				if ow := sn.Live[o].V.Weight + 1; ow > wt {
+					wt = ow
+				}
+				if s.Via == "old-left" {
+					l = o
+				} else {
+					l, r = r, o
+					if s.Via == "old-right" {
+						l, r = l, o
+					}
+				}
+			}
+		}
 	}
 	if s.Kind == "orphan" {
 		copy(l[:], w.rng.Bytes(32))
